@@ -62,7 +62,7 @@ func genHistory(rnd *rand.Rand, kind string, n int, id *int) []wl.Exchange {
 			o = "ok"
 		}
 		*id++
-		x := wl.Exchange{Kind: k, Outcome: o, ID: *id}
+		x := wl.Exchange{Kind: k, Outcome: o, ID: *id, NoDeadline: rnd.Intn(3) == 0}
 		if k == "bigget" || k == "bigpost" || k == "oneway-big" {
 			x.Size = []int{65, 128, 200, 700, 1500}[rnd.Intn(5)]
 		}
@@ -301,7 +301,7 @@ func TestRun(t *testing.T) {
 				var xs []wl.Exchange
 				for j := 0; j < 6; j++ {
 					id++
-					xs = append(xs, wl.Exchange{Kind: k, Outcome: o, ID: id, Size: 300})
+					xs = append(xs, wl.Exchange{Kind: k, Outcome: o, ID: id, Size: 300, NoDeadline: j%2 == 1})
 				}
 				cases = append(cases, hcase{Kind: kind, Exchanges: xs, Parallel: 2, Repeat: 2, Seed: rnd.Int63()})
 			}
